@@ -9,9 +9,10 @@ From C17 Require Import Sem Progs Static.
    FutureImpl::m_mutex protects m_ref_count, m_is_set, m_value *)
 Definition gv (x : nat) : option nat :=
   match x with
-  | 0 => Some M | 1 => Some TM | 4 => Some PM | 8 => Some FM | 9 => Some FM | 10 => Some FM | 16 => Some PLM | 17 => Some TMA | 18 => Some TMB | _ => None
+  | 0 => Some M | 1 => Some TM | 4 => Some PM | 8 => Some FM | 9 => Some FM | 10 => Some FM | 16 => Some PLM | 17 => Some TMA | 18 => Some TMB
+  | 33 => Some TM2 | 37 => Some SM | 38 => Some OWN | _ => None
   end.
-Definition gq (q : nat) : option nat := match q with 0 => Some M | 2 => Some IM | 16 => Some PLM | _ => None end.
+Definition gq (q : nat) : option nat := match q with 0 => Some M | 2 => Some IM | 16 => Some PLM | 34 => Some IMS | _ => None end.
 
 Definition n_ := mkA [] false.
 Definition t_ := mkA [TM] false.
@@ -50,12 +51,17 @@ Definition An : annot := fun id =>
   | 16 => [ (mkA [] false); (mkA [TMA] false); (mkA [TMA] false); (mkA [TMA] false); (mkA [TMA] false); (mkA [TMA] false); (mkA [TMA] false); (mkA [] false); (mkA [TMB] false); (mkA [TMB] false); (mkA [TMB] false); (mkA [TMB] false); (mkA [TMB] false); (mkA [TMB] false); (mkA [] false); (mkA [] false); (mkA [] false); (mkA [PLM] false); (mkA [PLM] false); (mkA [PLM] false); (mkA [PLM] false); (mkA [] false); (mkA [] false); (mkA [PLM] false); (mkA [PLM] false); (mkA [PLM] false); (mkA [] false); (mkA [TMB] false); (mkA [TMB] false); (mkA [] false); (mkA [] false); (mkA [] false); (mkA [] false); (mkA [TMB] false); (mkA [TMB] false); (mkA [] false); (mkA [TMA] false); (mkA [TMA] false); (mkA [] false); (mkA [] false); (mkA [] false); (mkA [] false); (mkA [TMA] false); (mkA [TMA] false); (mkA [] false) ]
   | 17 => [ (mkA [] false); (mkA [TMA] false); (mkA [TMA] false); (mkA [] false); (mkA [] false); (mkA [PLM] false); (mkA [PLM] false); (mkA [PLM] true); (mkA [] true); (mkA [] false); (mkA [PLM] false); (mkA [PLM] false); (mkA [PLM] false); (mkA [PLM] false); (mkA [PLM] false); (mkA [] false) ]
   | 18 => [ (mkA [] false); (mkA [TMB] false); (mkA [TMB] false); (mkA [] false); (mkA [] false); (mkA [PLM] false); (mkA [PLM] false); (mkA [PLM] true); (mkA [] true); (mkA [] false); (mkA [PLM] false); (mkA [PLM] false); (mkA [PLM] false); (mkA [PLM] false); (mkA [PLM] false); (mkA [] false) ]
+  | 19 => [ (mkA [] false); (mkA [] false); (mkA [] false); (mkA [LX] false); (mkA [] false); (mkA [LY] false); (mkA [] false); (mkA [] false); (mkA [] false); (mkA [] false) ]
+  | 20 => [ (mkA [] false); (mkA [LX] false); (mkA [] false); (mkA [LX] false); (mkA [] false) ]
+  | 21 => [ (mkA [] false); (mkA [] false); (mkA [] false); (mkA [] false); (mkA [] false); (mkA [] false); (mkA [] false); (mkA [] false); (mkA [] false); (mkA [] false); (mkA [IM] false); (mkA [IM] false); (mkA [] false); (mkA [] false); (mkA [] true); (mkA [] false); (mkA [IM] false); (mkA [IM] false); (mkA [] false); (mkA [] false); (mkA [] false); (mkA [IM] false); (mkA [IM] false); (mkA [] false); (mkA [] false); (mkA [IM] false); (mkA [IM] false); (mkA [IM] false); (mkA [] false); (mkA [] false); (mkA [] true); (mkA [] false); (mkA [IM] false); (mkA [IM] false); (mkA [] false); (mkA [] false); (mkA [IM] false); (mkA [] false); (mkA [] false); (mkA [] false); (mkA [] false); (mkA [] false); (mkA [] false); (mkA [IM] false); (mkA [IM] false); (mkA [IM] false); (mkA [] false); (mkA [] false); (mkA [] true); (mkA [] false); (mkA [IM] false); (mkA [IM] false); (mkA [] false); (mkA [] false); (mkA [] false); (mkA [IM] false); (mkA [IM] false); (mkA [] false); (mkA [] false); (mkA [IM] false); (mkA [IM] false); (mkA [IM] false); (mkA [] false); (mkA [] false); (mkA [] true); (mkA [] false); (mkA [IM] false); (mkA [IM] false); (mkA [] false); (mkA [] false); (mkA [IM] false); (mkA [] false); (mkA [IM] false); (mkA [] false) ]
+  | 22 => [ (mkA [] false); (mkA [OWN] false); (mkA [OWN; TM2] false); (mkA [OWN; TM2] false); (mkA [OWN; TM2] false); (mkA [OWN; TM2] false); (mkA [OWN; TM2] false); (mkA [OWN; TM2] false); (mkA [OWN] false); (mkA [OWN] false); (mkA [OWN] false); (mkA [IMS; OWN] false); (mkA [IMS; OWN] false); (mkA [OWN] false); (mkA [OWN] false); (mkA [OWN] false); (mkA [OWN; SM] false); (mkA [OWN; SM] false); (mkA [IMS; OWN; SM] false); (mkA [IMS; OWN; SM] false); (mkA [OWN; SM] false); (mkA [OWN; SM] false); (mkA [OWN; SM] false); (mkA [OWN; SM] false); (mkA [OWN; SM] false); (mkA [OWN] false); (mkA [OWN] false); (mkA [OWN] false); (mkA [OWN] false); (mkA [OWN] false); (mkA [IMS; OWN] false); (mkA [IMS; OWN] false); (mkA [OWN] false); (mkA [OWN] false); (mkA [OWN; TM2] false); (mkA [OWN; TM2] false); (mkA [OWN] false); (mkA [OWN] false); (mkA [OWN] false); (mkA [OWN] false); (mkA [OWN; TM2] false); (mkA [OWN; TM2] false); (mkA [OWN] false); (mkA [IMS; OWN] false); (mkA [IMS; OWN] false); (mkA [OWN] false); (mkA [] false) ]
+  | 23 => [ (mkA [] false); (mkA [TM2] false); (mkA [TM2] false); (mkA [] false); (mkA [] false); (mkA [] false); (mkA [] false); (mkA [] false); (mkA [] false); (mkA [] false); (mkA [IMS] false); (mkA [IMS] false); (mkA [] false); (mkA [] false); (mkA [] true); (mkA [] false); (mkA [] false); (mkA [SM] false); (mkA [SM] false); (mkA [SM] false); (mkA [] false); (mkA [] false); (mkA [] false); (mkA [] false); (mkA [] false) ]
   | _ => []
   end.
 
 Lemma check_all : forall id, check_prog gv gq (P id) (An id) = true.
 Proof.
-  intros id. do 19 (destruct id as [|id]; [vm_compute; reflexivity|]). reflexivity.
+  intros id. do 24 (destruct id as [|id]; [vm_compute; reflexivity|]). reflexivity.
 Qed.
 
 (* the pre-fix code does not pass: Thread::Join wrote m_running without Thread::m_mutex *)
@@ -71,7 +77,10 @@ Inductive initial : state -> Prop :=
 | init_s lims rs k : initial (init_ss lims rs k)
 | init_er lims rs : initial (init_execre lims rs)
 | init_p : initial init_periodic
-| init_pl n : initial (init_pool n).
+| init_pl n : initial (init_pool n)
+| init_lk : initial init_locker
+| init_sd lims rs k : initial (init_ssd lims rs k)
+| init_pf : initial init_prefs.
 
 Lemma initial_inv s0 : initial s0 -> Inv P An s0 /\ fault s0 = None.
 Proof.
@@ -90,4 +99,8 @@ Proof.
     match goal with |- context [if ?c then _ else _] => destruct c end; cbn; auto.
   - destruct t as [|[|i]]; cbn; auto.
   - destruct t as [|[|[|i]]]; cbn; auto.
+  - destruct t as [|[|[|i]]]; cbn; auto.
+  - destruct t as [|i]; cbn; auto.
+    match goal with |- context [if ?c then _ else _] => destruct c end; cbn; auto.
+  - destruct t as [|[|i]]; cbn; auto.
 Qed.
